@@ -958,8 +958,13 @@ func (c *Conn) handleData(arg string) {
 	r := newDataReader(c)
 	code, enhancedCode, msg := dataErrorToStatus(c.Session().Data(r))
 	r.limited = false
-	io.Copy(ioutil.Discard, r) // Make sure all the data has been consumed
+	_, err := io.Copy(ioutil.Discard, r) // Make sure all the data has been consumed
 	c.writeResponse(code, enhancedCode, msg)
+	if err != nil {
+		// The end of the message was not reached: what comes next on the
+		// connection is not a command.
+		c.Close()
+	}
 }
 
 func (c *Conn) handleBdat(arg string) {
@@ -1059,7 +1064,7 @@ func (c *Conn) handleBdat(arg string) {
 
 	c.lineLimitReader.LineLimit = 0
 
-	chunk := io.LimitReader(c.text.R, int64(size))
+	chunk := &io.LimitedReader{R: c.text.R, N: int64(size)}
 	n, err := io.Copy(c.bdatPipe, chunk)
 	if err == nil && n < int64(size) {
 		// The connection ended inside the chunk.
@@ -1082,7 +1087,9 @@ func (c *Conn) handleBdat(arg string) {
 			c.writeResponse(dataErrorToStatus(err))
 		}
 
-		if err == errPanic {
+		if err == errPanic || chunk.N > 0 {
+			// After a panic, or when the rest of the chunk could not be
+			// read: what comes next on the connection is not a command.
 			c.Close()
 		}
 
@@ -1130,8 +1137,13 @@ func (c *Conn) writeBdatStatuses() {
 func (c *Conn) discardChunk(size uint64) {
 	// The chunk is binary data, not lines.
 	c.lineLimitReader.LineLimit = 0
-	io.Copy(ioutil.Discard, io.LimitReader(c.text.R, int64(size)))
+	n, _ := io.Copy(ioutil.Discard, io.LimitReader(c.text.R, int64(size)))
 	c.lineLimitReader.LineLimit = c.server.MaxLineLength
+	if n < int64(size) {
+		// The rest of the chunk could not be read: what comes next on the
+		// connection is not a command.
+		c.Close()
+	}
 }
 
 // ErrDataReset is returned by Reader pased to Data function if client does not
@@ -1228,11 +1240,11 @@ func (c *Conn) handleDataLMTP() {
 		// Fallback to using a single status for all recipients.
 		err := c.Session().Data(r)
 		r.limited = false
-		io.Copy(ioutil.Discard, r) // Make sure all the data has been consumed
+		_, drainErr := io.Copy(ioutil.Discard, r) // Make sure all the data has been consumed
 		for _, rcpt := range c.recipients {
 			status.SetStatus(rcpt, err)
 		}
-		done <- true
+		done <- drainErr == nil
 	} else {
 		go func() {
 			defer func() {
@@ -1251,8 +1263,8 @@ func (c *Conn) handleDataLMTP() {
 
 			status.fillRemaining(lmtpSession.LMTPData(r, status))
 			r.limited = false
-			io.Copy(ioutil.Discard, r) // Make sure all the data has been consumed
-			done <- true
+			_, drainErr := io.Copy(ioutil.Discard, r) // Make sure all the data has been consumed
+			done <- drainErr == nil
 		}()
 	}
 
@@ -1261,8 +1273,8 @@ func (c *Conn) handleDataLMTP() {
 		c.writeResponse(code, enchCode, "<"+rcpt+"> "+msg)
 	}
 
-	// If done gets false, the panic occured in LMTPData and the connection
-	// should be closed.
+	// If done gets false, the panic occured in LMTPData or the end of the
+	// message was not reached, and the connection should be closed.
 	if !<-done {
 		c.Close()
 	}
